@@ -1,3 +1,173 @@
 import Driver.Common
--- stub driver (not yet implemented)
-def main : IO Unit := Driver.run () (fun s _ => (s, "bad-op"))
+import SSV.Model.Lru
+import SSV.Model.Dns
+open SSV SSV.Dns
+
+/-! Line-protocol driver for C17: engines `lru` (pointer-level model of cache/cache.go) and `dns`. -/
+
+structure DState where
+  lru : Option (Lru.Cache Nat Nat) := some (Lru.new 1)   -- `none` after a modelled nil dereference
+  cfg : Config := { hasUDP := false, hasTCP := true, cap := 1 }
+  st : State := {}
+
+def showEntries (l : List (Nat × Nat) × Bool) : String :=
+  let body := if l.1.isEmpty then "-" else ",".intercalate (l.1.map (fun (k, v) => s!"{k}={v}"))
+  if l.2 then body else body ++ "!unterminated"
+
+def b2s (b : Bool) : String := if b then "1" else "0"
+
+def lruStep (c : Lru.Cache Nat Nat) (args : List String) : Option (Lru.Cache Nat Nat) × String :=
+  match args with
+  | ["get", k] => match k.toNat? with
+    | some k => match Lru.get c k with
+      | some (c', some v) => (some c', s!"some {v}")
+      | some (c', none) => (some c', "none")
+      | none => (none, "PANIC")
+    | none => (some c, "bad-op")
+  | ["set", k, v] => match k.toNat?, v.toNat? with
+    | some k, some v => match Lru.set c k v with
+      | some c' => (some c', "ok")
+      | none => (none, "PANIC")
+    | _, _ => (some c, "bad-op")
+  | ["insert", k, v] => match k.toNat?, v.toNat? with
+    | some k, some v => match Lru.insertNew c k v with
+      | some (c', b) => (some c', b2s b)
+      | none => (none, "PANIC")
+    | _, _ => (some c, "bad-op")
+  | ["remove", k] => match k.toNat? with
+    | some k => match Lru.removeKey c k with
+      | some (c', b) => (some c', b2s b)
+      | none => (none, "PANIC")
+    | none => (some c, "bad-op")
+  | ["contains", k] => match k.toNat? with
+    | some k => (some c, b2s (Lru.contains c k))
+    | none => (some c, "bad-op")
+  | ["len"] => (some c, toString (Lru.len c))
+  | ["all"] => (some c, showEntries (Lru.all c))
+  | ["backward"] => (some c, showEntries (Lru.backward c))
+  | _ => (some c, "bad-op")
+
+-- ---------- parsing of the upstream script ----------
+
+def pBool (s : String) : Option Bool := if s == "1" then some true else if s == "0" then some false else none
+
+def pAns (s : String) : Option Ans :=
+  match s.splitOn "," with
+  | [k, t, a] => do pure { kind := ← k.toNat?, ttl := ← t.toNat?, addr := a }
+  | _ => none
+
+def pList {α : Type} (f : String → Option α) (s : String) : Option (List α) :=
+  if s == "-" then some [] else (s.splitOn ";").mapM f
+
+def pAuth (s : String) : Option (Bool × Nat) :=
+  match s.splitOn "," with
+  | [b, t] => do pure (← pBool b, ← t.toNat?)
+  | _ => none
+
+def pAnsEnd (s : String) : Option AnsEnd :=
+  match s.splitOn "," with
+  | ["d"] => some .done
+  | ["h"] => some .hdrErr
+  | ["b", t] => do pure (.bodyErr (← t.toNat?))
+  | _ => none
+
+def pAuthEnd (s : String) : Option AuthEnd :=
+  match s.splitOn "," with
+  | ["d"] => some .done
+  | ["h"] => some .hdrErr
+  | ["s", b, t] => do pure (.skipErr (← pBool b) (← t.toNat?))
+  | _ => none
+
+def pWire (s : String) : Option Wire :=
+  match s.splitOn "/" with
+  | ["g"] => some .garbage
+  | ["m", id, resp, ra, tc, rcode, qok, answers, ansend, auths, authend] => do
+    pure (.msg { id := ← id.toNat?, response := ← pBool resp, ra := ← pBool ra, tc := ← pBool tc, rcode := ← rcode.toNat?,
+                 qOk := ← pBool qok, answers := ← pList pAns answers, ansEnd := ← pAnsEnd ansend,
+                 auths := ← pList pAuth auths, authEnd := ← pAuthEnd authend })
+  | _ => none
+
+structure PState where
+  udp : List UdpEv := []
+  conns : List Conn := []          -- finished connections
+  cur : Option (List Frame) := none -- frames of the connection being read
+
+def pTok (p : PState) (tok : String) : Option PState :=
+  match tok.splitOn ":" with
+  | ["ud", dt, fs, w] => do pure { p with udp := p.udp ++ [.dgram (← dt.toNat?) (← pBool fs) (← pWire w)] }
+  | ["ue", dt] => do pure { p with udp := p.udp ++ [.readErr (← dt.toNat?)] }
+  | ["us"] => some { p with udp := p.udp ++ [.silence] }
+  | ["C"] => match p.cur with
+    | none => some { p with cur := some [] }
+    | some _ => none
+  | ["D"] => match p.cur with
+    | some [] => some { p with conns := p.conns ++ [.dialFail], cur := none }
+    | _ => none
+  | ["f", dt, w] => do
+    let fr ← p.cur
+    pure { p with cur := some (fr ++ [.wire (← dt.toNat?) (← pWire w)]) }
+  | ["z", dt] => do
+    let fr ← p.cur
+    pure { p with cur := some (fr ++ [.zero (← dt.toNat?)]) }
+  | ["E", "c", dt] => do
+    let fr ← p.cur
+    pure { p with conns := p.conns ++ [.conn fr (.close (← dt.toNat?))], cur := none }
+  | ["E", "m", dt] => do
+    let fr ← p.cur
+    pure { p with conns := p.conns ++ [.conn fr (.closeMid (← dt.toNat?))], cur := none }
+  | ["E", "h"] => do
+    let fr ← p.cur
+    pure { p with conns := p.conns ++ [.conn fr .hang], cur := none }
+  | _ => none
+
+def pUpstream (toks : List String) : Option Upstream := do
+  let p ← toks.foldlM pTok {}
+  match p.cur with
+  | some _ => none
+  | none => pure { udp := p.udp, conns := p.conns }
+
+def showAddrs (l : List String) : String := if l.isEmpty then "-" else ",".intercalate l
+
+def showExp : Option Nat → String
+  | none => "zero"
+  | some e => toString e
+
+def showRes (r : Result) : String := s!"a={showAddrs r.a} aaaa={showAddrs r.aaaa} exp={showExp r.exp}"
+
+def showSend : Option SendOut → String
+  | none => "q=- udp=-"
+  | some s =>
+    let q := if s.tcpTried then (if s.tcpQueries.isEmpty then "none" else "/".intercalate s.tcpQueries) else "-"
+    let u := match s.udp with
+      | none => "-"
+      | some u => s!"{u.why},{b2s u.cancel4},{b2s u.cancel6},{u.used}"
+    s!"q={q} udp={u}"
+
+def showOut (o : LookupOut) : String :=
+  let head := match o.out with
+    | .hit r => s!"hit {showRes r}"
+    | .fresh r => s!"fresh {showRes r}"
+    | .stale r => s!"stale {showRes r}"
+    | .fail => "fail a=- aaaa=- exp=zero"
+  s!"{head} t={o.st.now} {showSend o.send}"
+
+def stepC17 (s : DState) (line : String) : DState × String :=
+  match fields line with
+  | "lru" :: "new" :: [n] => match n.toInt? with
+    | some k => ({ s with lru := some (Lru.new k) }, "ok")
+    | none => (s, "bad-op")
+  | "lru" :: args => match s.lru with
+    | some c => let (c', out) := lruStep c args; ({ s with lru := c' }, out)
+    | none => (s, "PANIC")
+  | ["dns", "new", cap, u, t] => match cap.toNat?, pBool u, pBool t with
+    | some cap, some u, some t => ({ s with cfg := { hasUDP := u, hasTCP := t, cap := cap }, st := {} }, "ok")
+    | _, _, _ => (s, "bad-op")
+  | "dns" :: "lookup" :: gap :: name :: toks => match gap.toNat?, pUpstream toks with
+    | some gap, some up =>
+      let o := lookup s.cfg { s.st with now := s.st.now + gap } name up
+      ({ s with st := o.st }, showOut o)
+    | _, _ => (s, "bad-op")
+  | ["dns", "cache"] => (s, showAddrs (s.st.cache.map (fun (k, r) => s!"{k}:{showExp r.exp}")))
+  | _ => (s, "bad-op")
+
+def main : IO Unit := Driver.run ({} : DState) stepC17
